@@ -112,6 +112,86 @@ def arc_subset(rng, k, keep=None):
     return [[w if rng.random() < keep else -1 for w in latters(v, k)] for v in range(4 ** k)]
 
 
+def trap_graph(rng, k):
+    """funnel graphs: two to four disjoint short cycles (mostly 2-cycles) keep only their cycle arc, so a walk that enters one is
+    trapped in it; the other vertices keep most arcs INTO cycle vertices and few arcs elsewhere.  Deep walk fronts then consist
+    of trapped walks only and alternate between the same few vertices with changing multiplicities."""
+    n = 4 ** k
+    rows = [[-1] * 4 for _ in range(n)]
+    on_cycle = {}
+    for _ in range(rng.choice([2, 2, 3, 4])):
+        c = rng.choice([1, 2, 2, 2, 2, 2, 3, 4])
+        period = [rng.randrange(4) for _ in range(c)]
+        reps = period * (k // c + 2)
+        verts = []
+        for i in range(c):
+            w = reps[i:i + k]
+            verts.append(sum(x * 4 ** (k - 1 - j) for j, x in enumerate(w)))
+        if len(set(verts)) != c or any(v in on_cycle for v in verts):
+            continue
+        for i, v in enumerate(verts):
+            on_cycle[v] = verts[(i + 1) % c]
+    q_in = rng.choice([0.6, 0.8, 1.0])
+    q_out = rng.choice([0.1, 0.25, 0.4])
+    for v in range(n):
+        for j, w in enumerate(latters(v, k)):
+            if v in on_cycle:
+                if w == on_cycle[v]:
+                    rows[v][j] = w
+            elif w in on_cycle:
+                if rng.random() < q_in:
+                    rows[v][j] = w
+            elif w != v and rng.random() < q_out:
+                rows[v][j] = w
+    return rows
+
+
+def debruijn_cycle(rng, m):
+    """a random cyclic de Bruijn sequence of order m over 0..3 (every m-mer exactly once): random Eulerian circuit of the
+    order-(m-1) graph by Hierholzer with shuffled arc lists"""
+    if m == 0:
+        return [0]
+    n = 4 ** (m - 1)
+    out = {v: rng.sample(range(4), 4) for v in range(n)}
+    stack, circuit = [0], []
+    while stack:
+        v = stack[-1]
+        if out[v]:
+            x = out[v].pop()
+            stack.append((v * 4 + x) % n if n > 1 else 0)
+        else:
+            circuit.append(stack.pop())
+    circuit.reverse()                       # vertices (m-1)-mers; consecutive ones overlap: the letters are the last digits
+    return [v % 4 for v in circuit[1:]] if m > 1 else rng.sample(range(4), 4)
+
+
+def chain_mask(rng, k, length=None):
+    """vertex mask of order k whose induced graph is one long out-degree-1 chain (consecutive k-mers of a de Bruijn sequence
+    of order k-1: all (k-1)-prefixes distinct) that runs into a small branching core (x^k and the cycle of x^(k-1)y), plus a
+    few random extra vertices: the deepest possible trimming cascades / reachability searches for its size"""
+    m = k - 1
+    seq = debruijn_cycle(rng, m) if m >= 1 else [0]
+    L = len(seq)
+    x = rng.randrange(4)
+    y = rng.choice([c for c in range(4) if c != x])
+    # rotate so that the sequence (read cyclically) ends with x^m
+    dbl = seq + seq
+    end = next((i for i in range(L, 2 * L) if all(dbl[i - j] == x for j in range(m))), 2 * L - 1)
+    want = length if length is not None else rng.choice([L // 4, L // 2, (3 * L) // 4, L - 1, L - 1, rng.randint(1, max(1, L - 1))])
+    want = max(1, min(want, L - 1))
+    letters = [dbl[(end - want - m + 1 + i) % (2 * L)] for i in range(want + m)] if m >= 1 else [x]
+    mask = [0] * (4 ** k)
+    for i in range(len(letters) - k + 1):
+        mask[sum(c * 4 ** (k - 1 - j) for j, c in enumerate(letters[i:i + k]))] = 1
+    core = [x] * (k - 1) + [y] + [x] * (k - 1)
+    for i in range(k):
+        mask[sum(c * 4 ** (k - 1 - j) for j, c in enumerate(core[i:i + k]))] = 1
+    mask[sum(x * 4 ** j for j in range(k))] = 1
+    for v in rng.sample(range(4 ** k), rng.choice([0, 0, 1, 3])):
+        mask[v] = 1
+    return mask
+
+
 def wellformed_subset(rng, k):
     """arc subset in which every vertex reachable from a live vertex is live and reaches a branching vertex:
     start from a generated coding graph for t = 1 and delete arcs while that stays true."""
